@@ -542,6 +542,7 @@ def run_check(prop, tier, seed, replay=None):
             by_sig.setdefault(f["signature"], f)
         for sig, f in by_sig.items():
             st = [s for s in streams if s.name == f["stream"]][0]
+            st.setup()
 
             def still(c, st=st, sig=sig):
                 r = st.impl(c)
@@ -553,6 +554,7 @@ def run_check(prop, tier, seed, replay=None):
                                        "implementation_result": r, "oracle_detail": [d for s2, d in st.oracle(small, r) if s2 == sig][:3] or f["detail"],
                                        "broken": broken, "repo_head": head, "repo_dirty_files": dirty,
                                        "how_to_replay": "./check %s --replay <this file>" % prop})
+            st.teardown()
             lines.append("VIOLATION property=%s replay=%s" % (prop, path))
             violations += 1
         rc = 1
